@@ -69,6 +69,8 @@ class Gen:
 
   def value(self, depth=0):
     r = self.rng.random()
+    if r < 0.12:
+      return {'const': self.rng.randrange(14)}
     if r < 0.6 or depth >= 2:
       return self.token()
     if r < 0.66 and self.shareable:
